@@ -461,6 +461,7 @@ struct Stats {
     appends: u64,
     truncates: u64,
     reloads: u64,
+    top_height_behaviours: u64,
     kept_views: u64,
     probes: u64,
     full_views: u64,
@@ -568,7 +569,25 @@ fn view_entries<A: Adapter>(t: &Table, branch: u32, store: &[OEntry], idx: &Valu
 fn run_behaviour<A: Adapter>(t: &Table, seed: u64, init: &Value, steps: &[&Value], st: &mut Stats) -> Option<Mismatch> {
     let n0 = init["n0"].as_u64().unwrap();
     let sid = init["sid"].as_u64().unwrap();
-    let pr = profile(seed, n0, sid);
+    let mut pr = profile(seed, n0, sid);
+    // the top of the height range: in every other behaviour of the "near u64::MAX" profile the highest leaf the
+    // behaviour ever holds sits at height exactly u64::MAX (start_height = end_height = u64::MAX)
+    if pr.h0 == u64::MAX - 5_000 && (pr.p / 8) % 2 == 0 {
+        let (mut cur, mut maxn) = (n0, n0.max(1));
+        for step in steps {
+            if step["op"].as_str().unwrap() == "A" { cur += 1; } else { cur = cur.saturating_sub(1); }
+            maxn = maxn.max(cur);
+        }
+        // (an upper bound of the positions ever used: initial leaves + appends; exact when no truncation precedes the
+        // last append)
+        let appends = steps.iter().filter(|s| s["op"].as_str().unwrap() == "A").count() as u64;
+        // (+ 1: the probe leaf of the append-then-truncate clause sits one position above the current leaves)
+        let bound = n0 + appends + 1;
+        pr.h0 = u64::MAX - (bound - 1);
+        if maxn + 1 == bound {
+            st.top_height_behaviours += 1;
+        }
+    }
     let branch = pr.branch;
     let mut pos_of: HashMap<u64, u64> = (1..=n0).map(|i| (i, i - 1)).collect();
     let mut store: Vec<OEntry> = {
@@ -944,7 +963,7 @@ fn main() {
     // panics of the code under test are data (recorded, not printed); harness faults are printed
     std::panic::set_hook(Box::new(|info| {
         let s = info.to_string();
-        if s.contains("HARNESS") {
+        if s.contains("HARNESS") || std::env::var("VERIF_LOUD").is_ok() {
             eprintln!("{s}");
         }
     }));
@@ -1034,7 +1053,7 @@ fn main() {
     println!(
         "{}",
         json!({"behaviours": st.behaviours, "steps": st.steps, "appends": st.appends, "truncates": st.truncates,
-               "reloads": st.reloads, "kept_views": st.kept_views, "probes": st.probes, "full_views": st.full_views, "roundtrips": st.roundtrips,
+               "reloads": st.reloads, "top_height_behaviours": st.top_height_behaviours, "kept_views": st.kept_views, "probes": st.probes, "full_views": st.full_views, "roundtrips": st.roundtrips,
                "root_compares": st.root_compares, "node_compares": st.node_compares, "ser_records": st.ser_records,
                "cs_values": st.cs_values, "max_leaves": st.max_leaves, "distinct_roots": st.distinct_roots.len(),
                "distinct_size_version_op": st.shapes.len(), "crate_errors": st.crate_errors,
